@@ -1178,3 +1178,79 @@ Proof.
   destruct (rev (trim_left (rev (trim_left s)))) as [|c r] eqn:E; [exact I|].
   rewrite Hts in Hha. exact Hha.
 Qed.
+
+(** * MixMatcher.Len and the providers that drop an empty set *)
+
+Section LenFacts.
+  Context {V : Type}.
+
+  Lemma trie_len_cons x k (c : trie V) t :
+    trie_len (Node x ((k, c) :: t)) =
+    trie_len c + (match value c with Some _ => 1 | None => 0 end) + trie_len (Node x t).
+  Proof. reflexivity. Qed.
+
+  Lemma trie_len_child x ch l (c : trie V) :
+    map_get l ch = Some c ->
+    trie_len c + (match value c with Some _ => 1 | None => 0 end) <= trie_len (Node x ch).
+  Proof.
+    induction ch as [|[k c0] t IH]; cbn [map_get]; [discriminate|].
+    rewrite trie_len_cons. destruct (str_eqb l k).
+    - intro H. injection H as ->. lia.
+    - intro H. specialize (IH H). lia.
+  Qed.
+
+  (** a value stored below the root is counted *)
+  Lemma value_at_trie_len : forall p (t : trie V) v,
+    p <> [] -> value_at p t = Some v -> 0 < trie_len t.
+  Proof.
+    induction p as [|l p IH]; intros t v Hp H; [contradiction|].
+    cbn [value_at] in H. destruct (map_get l (children t)) as [c|] eqn:E; [|discriminate].
+    destruct t as [x ch]. cbn [children] in E. pose proof (trie_len_child x ch l c E) as Hc.
+    destruct p as [|l' p'].
+    - cbn [value_at] in H. rewrite H in Hc. lia.
+    - assert (0 < trie_len c) by (apply (IH c v); [discriminate | exact H]). lia.
+  Qed.
+
+  Lemma map_get_nonempty (m : amap V) k v : map_get k m = Some v -> 0 < N.of_nat (length m).
+  Proof. destruct m; [discriminate|]. cbn [length]. lia. Qed.
+End LenFacts.
+
+Section ProviderFacts.
+  Context {V : Type}.
+  Variable re_valid : str -> bool.
+
+  (** One accepted rule of ANY single type — full, keyword, a regexp that
+      compiles, or a domain rule other than the root — makes Len() positive,
+      whatever else is in the set: domain_set and base_domain keep the set. *)
+  Lemma mix_len_pos dflt (rs : list (str * V)) s v ty pat :
+    In (s, v) rs -> parse_rule dflt s = Ok (ty, pat) ->
+    (ty = TRegexp -> re_valid pat = true) ->
+    (ty = TDomain -> labels pat <> []) ->
+    0 < mix_len (fst (mix_add_all re_valid dflt rs empty_mix)).
+  Proof.
+    intros Hin Hp Hre Hdom. rewrite mix_components. unfold mix_len. cbn [m_full m_dom m_re m_kw].
+    assert (Hr : In (pat, v) (rules_of dflt ty rs)) by (apply (proj2 (in_rules_of dflt ty rs pat v)); exists s; auto).
+    destruct ty.
+    - (* full *)
+      destruct (last_val str_eqb normalize (normalize pat) (rules_of dflt TFull rs)) as [v'|] eqn:E.
+      + pose proof (full_lookup (rules_of dflt TFull rs) pat) as Hl. unfold full_match in Hl. rewrite E in Hl.
+        apply map_get_nonempty in Hl. lia.
+      + exfalso. exact (last_val_none_in str_eqb str_eqb_spec normalize _ _ _ _ E Hr eq_refl).
+    - (* domain *)
+      destruct (last_val lstr_eqb labels (labels pat) (rules_of dflt TDomain rs)) as [v'|] eqn:E.
+      + pose proof (sub_value_at (rules_of dflt TDomain rs) (labels pat)) as Hl. rewrite E in Hl.
+        apply value_at_trie_len in Hl; [lia | exact (Hdom eq_refl)].
+      + exfalso. exact (last_val_none_in lstr_eqb lstr_eqb_spec labels _ _ _ _ E Hr eq_refl).
+    - (* regexp *)
+      destruct (last_val str_eqb (fun p => p) pat (rules_of dflt TRegexp rs)) as [v'|] eqn:E.
+      + assert (Hi : In (pat, v') (add_all (re_add_skip re_valid) (rules_of dflt TRegexp rs) []))
+          by (apply (proj2 (re_entries re_valid (fun _ _ => false) (rules_of dflt TRegexp rs) pat v')); split; [exact (Hre eq_refl) | exact E]).
+        destruct (add_all (re_add_skip re_valid) (rules_of dflt TRegexp rs) []); [destruct Hi|]. cbn [length]. lia.
+      + exfalso. exact (last_val_none_in str_eqb str_eqb_spec (fun p => p) _ _ _ _ E Hr eq_refl).
+    - (* keyword *)
+      destruct (last_val str_eqb normalize (normalize pat) (rules_of dflt TKeyword rs)) as [v'|] eqn:E.
+      + assert (Hi : In (normalize pat, v') (add_all kw_add (rules_of dflt TKeyword rs) [])) by (apply (proj2 (kw_entries (rules_of dflt TKeyword rs) (normalize pat) v')); exact E).
+        destruct (add_all kw_add (rules_of dflt TKeyword rs) []); [destruct Hi|]. cbn [length]. lia.
+      + exfalso. exact (last_val_none_in str_eqb str_eqb_spec normalize _ _ _ _ E Hr eq_refl).
+  Qed.
+End ProviderFacts.
